@@ -412,8 +412,20 @@ class AnsiString:
                         del settings_point.rem[i]
 
                 if idx == end:
-                    if end != len(self._s):
-                        settings_point.add += removed_settings
+                    if end != len(self._s) and removed_settings:
+                        # Restart the removed settings here. To keep everyone's precedence, whatever was active
+                        # on top of the first removed setting is stopped here too and restarted along with them.
+                        carried_settings = [
+                            s for s in current_settings
+                            if __class__._find_setting_reference(s, settings_point.add) < 0
+                        ]
+                        while __class__._find_setting_reference(carried_settings[0], removed_settings) < 0:
+                            del carried_settings[0]
+                        settings_point.rem += [
+                            s for s in carried_settings
+                            if __class__._find_setting_reference(s, removed_settings) < 0
+                        ]
+                        settings_point.add[:0] = carried_settings
                 else:
                     for i in reversed(range(len(settings_point.add))):
                         if ansi_settings is None or settings_point.add[i] in ansi_settings:
